@@ -668,7 +668,40 @@ def run(ctx):
                                                        "want": [[n_, sorted(map(list, s_), key=str)] for n_, s_ in want], "observed": a[:600],
                                                        "oracle": "c16: each output column has exactly the base columns that flow into it; a derived table's alias is looked up before a WITH table of the same name, both before the provider",
                                                        "how_found": "stream lineage-shadowing"})
+    # constant aggregates (COUNT(1), SUM(1): a table-level source, no column) over derived / WITH tables of exactly ONE, of two and of three output columns, the inner
+    # column itself a constant aggregate, a real column or both; over one table and over a join (seeded C16-13: the upstream-table set of a one-column lineage dropped
+    # its table-level sources) — systematic, against the analyzer model; the one-column shapes also with the flow written out
+    agg = []
+    for outer in ("COUNT(1)", "SUM(1)", "COUNT('x')"):
+        for inner in ("COUNT(1) AS n", "SUM(1) AS n", "a", "a, COUNT(1) AS n", "COUNT(1) AS n, MAX(b) AS m", "a, b, COUNT(1) AS n"):
+            for src in ("t1", "t1 JOIN t2 ON t1.a = t2.a"):
+                inner_q = "SELECT %s FROM %s" % (inner.replace("a,", "t1.a,").replace("MAX(b)", "MAX(t1.b)") if "JOIN" in src else inner, src)
+                if inner == "a" and "JOIN" in src:
+                    inner_q = "SELECT t1.a FROM %s" % src
+                if inner.startswith("a,") or inner == "a, b, COUNT(1) AS n":
+                    inner_q += " GROUP BY " + ("t1.a" if "JOIN" in src else "a") + (", b" if inner.startswith("a, b") and "JOIN" not in src else ", t1.b" if inner.startswith("a, b") else "")
+                    inner_q = inner_q.replace("t1.a, b,", "t1.a, t1.b,")
+                want1 = None
+                if inner in ("COUNT(1) AS n", "SUM(1) AS n"):
+                    want1 = [("m", {(None, "t1", None)} | ({(None, "t2", None)} if "JOIN" in src else set()))]
+                agg.append(("SELECT %s AS m FROM (%s) q" % (outer, inner_q), want1))
+                agg.append(("WITH w AS (%s) SELECT %s AS m FROM w" % (inner_q, outer), want1))
+    res_ag, _ = ctx.corr(["AN lineage %s %s %s" % ("MYSQL", E.enhex(c17.SHADOW_CAT), E.enhex(t)) for t, _ in agg], stream="lineage-constant-aggregates")
+    for (t, want), (_, a, _) in zip(agg, res_ag):
+        if want is None or not a.startswith("OK "):
+            continue
+        got = AGG_SRC.findall(a.split(" ASKED ")[0])
+        tabs = {x for x in got}
+        ctx.count("constant-aggregate:" + ("as-specified" if tabs == {w[1] for w in want[0][1]} else "DIFFERENT"))
+        if tabs != {w[1] for w in want[0][1]}:
+            pfam.report(ctx, "lineage:constant-aggregate", {"kind": "input", "entry": "TableLineageAnalyzer", "dialect": "MYSQL", "input": t, "catalogue": c17.SHADOW_CAT,
+                                                           "want": sorted(w[1] for w in want[0][1]), "observed": a[:600],
+                                                           "oracle": "c16: a constant aggregate depends on every table of its level, also through a derived / WITH table whose only column is a constant aggregate",
+                                                           "how_found": "stream lineage-constant-aggregates"})
     pfam.conclude(ctx, search)
+
+
+AGG_SRC = re.compile(r'SourceColumn\{schema_name=(?:None|"[^"]*"),table_name="([^"]*)",column_name=None\}')
 
 
 def search(ctx):
@@ -695,6 +728,12 @@ def replay(payload):
         return 0 if outcome is None and not empty else 1
     a = E.run_impl(["AN lineage %s %s %s" % (payload["dialect"], E.enhex(payload["catalogue"]), E.enhex(payload["input"]))])[0]
     print("catalogue:", payload["catalogue"]); print("query    :", repr(payload["input"])); print("expected :", str(payload["want"])[:800]); print("observed :", a[:800])
+    if "stmt" not in payload:
+        if "constant-aggregates" in payload.get("how_found", ""):
+            return 0 if a.startswith("OK ") and set(AGG_SRC.findall(a.split(" ASKED ")[0])) == set(payload["want"]) else 1
+        from props import c17
+        got = c17.parse_an_lineage(a) if a.startswith("OK ") else None
+        return 0 if got == [(n_, {tuple(x) for x in s_}) for n_, s_ in payload["want"]] else 1
     want = payload["want"] if payload["want"] == "ANALYZER" else [(w[0] if payload["stmt"] == "select" else tuple(w[0]), None if w[1] is None else frozenset(tuple(x) for x in w[1])) for w in payload["want"]]
     outcome, empty = judge({"want": want, "kind": payload["stmt"]}, a)
     return 0 if outcome is None and not empty else 1
